@@ -17,6 +17,16 @@ from . import core
 TR = []          # the trace of the request being executed
 SIDE = {}        # side observations of the request being executed (not part of the trace)
 LISTEN = {}      # what the transport-level listeners of the request being executed do to ctx.out_string
+AUX = {}         # what the auxiliary method of the request being executed does ('mode')
+USERHDR = []     # response header values the user function of the request being executed sets
+
+HDR_VALUES = {'str': lambda n: 'v', 'latin1': lambda n: 'caf\xe9', 'list': lambda n: ['v%d' % i for i in range(n)],
+              'tuple': lambda n: tuple('v%d' % i for i in range(n))}
+
+
+def set_user_headers(ctx):
+    for i, h in enumerate(USERHDR):
+        ctx.transport.resp_headers['X-U%d' % i] = HDR_VALUES[h['k']](h.get('n', 0))
 
 FC_OF_CODE = {'Client.RequestTooLong': 'tooLong', 'Client.ResourceNotFound': 'notFound',
               'Client.RequestNotAllowed': 'notAllowed', 'Client.InvalidCredentialsError': 'invalidCreds'}
@@ -59,16 +69,19 @@ def impl_env():
         @rpc(Unicode, _returns=Unicode)
         def echo(ctx, s):
             TR.append(['user'])
+            set_user_headers(ctx)
             return s
 
         @rpc(Integer(ge=0), _returns=Integer)
         def val(ctx, n):
             TR.append(['user'])
+            set_user_headers(ctx)
             return n
 
         @rpc(Unicode, Unicode, _returns=Unicode)
         def fail(ctx, kind, code):
             TR.append(['user'])
+            set_user_headers(ctx)
             if code:
                 ctx.transport.resp_code = code
             raise mkfault(kind)
@@ -76,6 +89,7 @@ def impl_env():
         @rpc(Integer, Unicode, _returns=Iterable(Unicode))
         def gen(ctx, n, mode):
             TR.append(['user'])
+            set_user_headers(ctx)
             if mode and mode.startswith('raises:'):
                 raise mkfault(mode[7:])
             for i in range(n or 0):
@@ -86,6 +100,7 @@ def impl_env():
         @rpc(Unicode, Unicode, Unicode, _returns=Unicode)
         def raw(ctx, sizes, lazy, code):
             TR.append(['user'])
+            set_user_headers(ctx)
             chunks = [b'x' * int(k) for k in sizes.split(',') if k != ''] if sizes else []
             if code:
                 ctx.transport.resp_code = code
@@ -98,21 +113,62 @@ def impl_env():
             # a length the transport has to correct or drop
             ctx.transport.resp_headers['Content-Length'] = '9999'
 
+    from spyne.auxproc.sync import SyncAuxProc
+
+    def aux_body():
+        TR.append(['aux'])
+        mode = AUX.get('mode')
+        if mode == 'userFault':
+            raise Fault('Client.Aux', 'x')
+        if mode == 'userCrash':
+            raise RuntimeError('aux boom')
+        if mode == 'serFail':
+            return object()      # declared Integer: the auxiliary response cannot be serialised
+        return 1
+
+    def make_aux(process_exceptions):
+        class AuxSvc(Service):
+            __aux__ = SyncAuxProc(process_exceptions=process_exceptions)
+
+            @rpc(Unicode, _returns=Integer)
+            def echo(ctx, s):
+                return aux_body()
+
+            @rpc(Integer(ge=0), _returns=Integer)
+            def val(ctx, n):
+                return aux_body()
+
+            @rpc(Unicode, Unicode, _returns=Integer)
+            def fail(ctx, kind, code):
+                return aux_body()
+
+            @rpc(Integer, Unicode, _returns=Integer)
+            def gen(ctx, n, mode):
+                return aux_body()
+
+            @rpc(Unicode, Unicode, Unicode, _returns=Integer)
+            def raw(ctx, sizes, lazy, code):
+                return aux_body()
+        return AuxSvc
+
     apps = {}
 
-    def get_app(proto, chunked, mx, block, wsdl=None):
-        key = (proto, chunked, mx, block, wsdl)
+    def get_app(proto, chunked, mx, block, wsdl=None, aux=None):
+        key = (proto, chunked, mx, block, wsdl, aux)
         if key in apps:
             return apps[key]
+        svcs = [Svc] + ([make_aux(aux == 'sync-exc')] if aux else [])
         if proto == 'soap':
-            app = Application([Svc], 'tns', in_protocol=Soap11(validator='soft'), out_protocol=Soap11())
+            app = Application(svcs, 'tns', in_protocol=Soap11(validator='soft'), out_protocol=Soap11())
         elif proto == 'json':
-            app = Application([Svc], 'tns', in_protocol=JsonDocument(validator='soft'), out_protocol=JsonDocument())
+            app = Application(svcs, 'tns', in_protocol=JsonDocument(validator='soft'), out_protocol=JsonDocument())
         else:
-            app = Application([Svc], 'tns', in_protocol=HttpRpc(validator='soft'), out_protocol=JsonDocument())
+            app = Application(svcs, 'tns', in_protocol=HttpRpc(validator='soft'), out_protocol=JsonDocument())
         w = WsgiApplication(app, chunked=chunked, max_content_length=mx, block_length=block)
         w.event_manager.add_listener('wsgi_close', lambda ctx: TR.append(['wsgiClose']))
-        app.event_manager.add_listener('method_context_closed', lambda ctx: TR.append(['closed']))
+        # the request context is the primary one; auxiliary contexts close on their own
+        app.event_manager.add_listener('method_context_closed',
+                                       lambda ctx: TR.append(['closed']) if ctx.aux is None else None)
 
         def on_exc(ctx):
             SIDE['fault'] = fault_class(ctx.out_error.faultcode) if ctx.out_error is not None else None
@@ -249,12 +305,18 @@ def execute(case, validate=False):
     E = impl_env()
     cfg = case['cfg']
     w = E['get_app'](case['proto'], cfg['chunked'], cfg['max'], cfg['block'],
-                     case.get('wsdl') if case['kind'] == 'wsdl' and case.get('wsdl') != 'ok' else None)
+                     case.get('wsdl') if case['kind'] == 'wsdl' and case.get('wsdl') != 'ok' else None,
+                     (('sync-exc' if case.get('aux_on_errors') else 'sync') if case.get('aux') else None)
+                     if case['kind'] == 'rpc' else None)
     doc = b'' if case['kind'] == 'wsdl' else request_doc(case)
     env = environ_of(case, doc)
     del TR[:]
     SIDE.clear()
     LISTEN.clear()
+    AUX.clear()
+    AUX['mode'] = case.get('aux')
+    del USERHDR[:]
+    USERHDR.extend(case.get('headers') or [])
     if case.get('on_return') is not None:
         LISTEN['ret'] = case['on_return']
     if case.get('on_exception') is not None:
@@ -272,6 +334,12 @@ def execute(case, validate=False):
                     cl = int(v)
         except Exception:
             cl = -1
+        try:
+            for k, v in headers:
+                if isinstance(k, str) and k.startswith('X-U'):
+                    TR.append(['hdr', int(k[3:]), isinstance(v, str)])
+        except Exception:
+            pass
         TR.append(['sr', int(m.group(1)) if m else -1, '?', cl])
         return lambda data: None
 
@@ -383,6 +451,9 @@ def model_query(case, side, ref):
                         req['gen'] = 'empty'
                     else:
                         req['gen'] = 'yields'
+    req['aux'] = case.get('aux') or 'none'
+    req['auxOnErrors'] = bool(case.get('aux_on_errors'))
+    req['userHeaders'] = [{'k': 'str' if h['k'] == 'latin1' else h['k'], 'n': h.get('n', 0)} for h in (case.get('headers') or [])]
     if case.get('on_return') is not None:
         req['onReturn'] = {'chunks': case['on_return']['sizes'], 'sized': case['on_return']['lazy'] != 'gen'}
     if case.get('on_exception') is not None:
@@ -513,6 +584,8 @@ def is_prereject(case):
 def crash_site(case, tr):
     if case['kind'] == 'wsdl':
         return 'wsdl'
+    if any(e[0] == 'sr' for e in tr):
+        return 'after-start-response'
     if not any(e[0] == 'user' for e in tr):
         return 'before-user-code'
     m = case['call']['m']
@@ -610,6 +683,17 @@ def measure_facts():
     c = mkcase('json', 'val', {'n': -3}, on_exception=[4, 3])
     f['errorEventBeforeLength'] = cl_matches(c)
     WITNESS['errorEventBeforeLength'] = c
+    # the guard around the auxiliary run after start_response, and _gen_http_headers
+    c = mkcase('http', 'echo', {'s': 'hi'}, aux='serFail')
+    f['auxGuardOk'] = not any(e[0] == 'crash' for e in run(c))
+    WITNESS['auxGuardOk'] = c
+    c = mkcase('http', 'fail', {'kind': 'client'}, aux='serFail', aux_on_errors=True)
+    f['auxGuardError'] = not any(e[0] == 'crash' for e in run(c))
+    WITNESS['auxGuardError'] = c
+    c = mkcase('http', 'echo', {'s': 'hi'}, headers=[{'k': 'tuple', 'n': 2}])
+    t = run(c)
+    f['headerTuplesExpanded'] = all(e[2] for e in t if e[0] == 'hdr') and sum(1 for e in t if e[0] == 'hdr') == 2
+    WITNESS['headerTuplesExpanded'] = c
     tr = run(mkcase('json', 'gen', {'n': 2, 'mode': 'late'}))
     f['lateErrorKeepsOkStatus'] = next((e[1] for e in tr if e[0] == 'sr'), 0) == f['okStatus']
     return f
@@ -617,7 +701,8 @@ def measure_facts():
 
 GOOD = {'closeTiming': 'afterBody', 'wsdlCloseTiming': 'afterBody', 'joinKind': 'bytes', 'clParse': 'fault',
         'genGuard': True, 'soapEmptyBodyFault': True, 'wsdlErrBytes': True, 'wsdlErrClosed': True,
-        'returnEventBeforeLength': True, 'errorEventBeforeLength': True}
+        'returnEventBeforeLength': True, 'errorEventBeforeLength': True, 'auxGuardOk': True, 'auxGuardError': True,
+        'headerTuplesExpanded': True}
 SWITCH_WHAT = {
     'closeTiming': 'handle_rpc/handle_error close the context (method_context_closed, wsgi_close) while building the iterable, before the first body chunk',
     'wsdlCloseTiming': 'handle_wsdl_request closes the context before returning the document',
@@ -629,6 +714,10 @@ SWITCH_WHAT = {
     'wsdlErrClosed': 'the 404/500 answers to ?wsdl never close their context',
     'returnEventBeforeLength': "handle_rpc fires 'wsgi_return' after it joined / measured ctx.out_string: a listener that rewrites "
                                'the outgoing stream (gzip, wrap) leaves a Content-Length that is not the number of body bytes',
+    'auxGuardOk': 'handle_rpc does not catch every exception of the auxiliary run after start_response: an auxiliary method whose '
+                  'response cannot be serialised makes the callable raise after start_response; no body, context never closed',
+    'auxGuardError': 'handle_error does not catch every exception of the auxiliary run after start_response',
+    'headerTuplesExpanded': '_gen_http_headers passes a tuple-valued response header on as it is: a non-string header value reaches start_response',
     'errorEventBeforeLength': "handle_error fires 'wsgi_exception' after it computed Content-Length: a listener that rewrites the "
                               'fault document leaves a Content-Length that is not the number of body bytes',
 }
@@ -664,12 +753,16 @@ def facts13 : Facts13 where
   okStatus := %d
   returnEventBeforeLength := %s
   errorEventBeforeLength := %s
+  auxGuardOk := %s
+  auxGuardError := %s
+  headerTuplesExpanded := %s
   lateErrorKeepsOkStatus := %s
 
 end SpyneModel.Generated
 ''' % (f['closeTiming'], f['wsdlCloseTiming'], f['joinKind'], f['clParse'], b(f['genGuard']), b(f['soapEmptyBodyFault']),
        f['soapBadLengthClass'], f['soapEmptyBodyClass'], b(f['wsdlErrBytes']), b(f['wsdlErrClosed']), tab(f['statusPlain']), tab(f['statusSoap']), f['preRejectStatus'],
        f['wsdlOkStatus'], f['wsdlUnavailableStatus'], f['wsdlErrorStatus'], f['okStatus'], b(f['returnEventBeforeLength']), b(f['errorEventBeforeLength']),
+       b(f['auxGuardOk']), b(f['auxGuardError']), b(f['headerTuplesExpanded']),
        b(f['lateErrorKeepsOkStatus']))
 
 
@@ -756,6 +849,24 @@ def gen_cases(ctx):
                 for i, (r, e) in enumerate([(r, e) for r in RET for e in EXC][::3]):
                     add(mkcase(proto, m, a, cfg=dict(BASE_CFG, chunked=chunked), abort=[None, 1, None, 0][i % 4],
                                on_return=r, on_exception=e if i % 2 == 0 else None), 'listeners')
+    # -- auxiliary services (none / ok / Fault / non-Fault in user code / unserialisable response; with and without
+    #    process_exceptions) and user-set response headers (str / latin-1 / list / tuple / several) x every outcome
+    HDRS = [[{'k': 'str'}], [{'k': 'latin1'}], [{'k': 'list', 'n': 2}], [{'k': 'tuple', 'n': 2}], [{'k': 'tuple', 'n': 0}],
+            [{'k': 'list', 'n': 0}, {'k': 'str'}, {'k': 'tuple', 'n': 3}], [{'k': 'tuple', 'n': 1}, {'k': 'list', 'n': 3}]]
+    AUXK = ['ok', 'userFault', 'userCrash', 'serFail']
+    i = 0
+    for proto in ('soap', 'json', 'http'):
+        for m, a in CALLS:
+            if proto == 'http' and m == '#junk':
+                continue
+            for ak in AUXK:
+                for onerr in (False, True):
+                    i += 1
+                    add(mkcase(proto, m, a, cfg=dict(BASE_CFG, chunked=i % 3 != 0), abort=[None, None, 0, 1][i % 4], aux=ak,
+                               aux_on_errors=onerr, headers=HDRS[i % len(HDRS)] if i % 2 else None), 'aux')
+            for h in HDRS:
+                i += 1
+                add(mkcase(proto, m, a, cfg=dict(BASE_CFG, chunked=i % 2 == 0), abort=[None, 1][i % 2], headers=h), 'headers')
     # -- Soap11 refusing verb / content type before reading
     for chunked in (True, False):
         add(dict(mkcase('soap', 'echo', {'s': 'hi'}, cfg=dict(BASE_CFG, chunked=chunked)), verb='GET'), 'prereject')
@@ -825,6 +936,12 @@ def gen_cases(ctx):
             k = rng.randrange(0, 4)
             c['on_return'] = {'sizes': [rng.choice([0, 1, 5, 300]) for _ in range(k)], 'lazy': rng.choice(['list', 'gen', 'tuple'])}
         if rng.random() < 0.25:
+            c['aux'] = rng.choice(AUXK)
+            c['aux_on_errors'] = rng.random() < 0.5
+        if rng.random() < 0.25:
+            c['headers'] = [rng.choice([{'k': 'str'}, {'k': 'latin1'}, {'k': 'list', 'n': rng.randrange(4)}, {'k': 'tuple', 'n': rng.randrange(4)}])
+                            for _ in range(rng.randrange(1, 4))]
+        if rng.random() < 0.25:
             c['on_exception'] = [rng.choice([0, 2, 9, 300]) for _ in range(rng.randrange(0, 3))]
         add(c, 'random')
     return cases
@@ -866,6 +983,10 @@ def run(ctx):
         ctx.cov['traces_validated_against_impl'] += 1
         ctx.hit('tag:' + case['tag'])
         ctx.hit('proto:' + case['proto'])
+        if case.get('aux'):
+            ctx.hit('aux:%s%s' % (case['aux'], '+process_exceptions' if case.get('aux_on_errors') else ''))
+        for h in case.get('headers') or []:
+            ctx.hit('user-header:' + h['k'])
         if side.get('ret_listener_ran'):
             ctx.hit('listener:wsgi_return-rewrites')
         if side.get('exc_listener_ran'):
@@ -891,12 +1012,12 @@ def run(ctx):
         d = declared_int(case)
         if (case.get('cl') in (None, '') or (d is not None and d >= 0)) and not any(e[0] == 'crash' for e in tr):
             seen_val += 1
-            if seen_val % (1 if ctx.thorough else 3) == 0:
+            if seen_val % (1 if ctx.thorough else 3) == 0 or case.get('headers') or case.get('aux'):
                 tr2, side2, _ = execute(case, validate=True)
                 ctx.hit('validator-runs')
                 if 'validator_error' in side2:
                     ctx.hit('t3-fail:validator')
-                    ctx.finding('wsgiref-validator:' + re.sub(r'[^A-Za-z ]', '', side2['validator_error'])[:40].strip().replace(' ', '-'),
+                    ctx.finding('wsgiref-validator:' + re.sub(r'[^A-Za-z ]', '', re.split(r'[(:]', side2['validator_error'])[0])[:40].strip().replace(' ', '-'),
                                 'wsgiref.validate: ' + side2['validator_error'], {'case': case, 'impl_trace': tr2, 'validate': True})
                 elif tr2 != tr and not case.get('noclose'):
                     ctx.finding('nondeterministic-trace', 'the same request gives two traces', {'case': case, 'impl_trace': tr, 'second': tr2})
@@ -923,7 +1044,9 @@ def run(ctx):
     ctx.cov['facts'] = {k: (v if not isinstance(v, dict) else v) for k, v in f.items()}
     ctx.cov['rule'] = ('case = (protocol soap/json/httprpc, chunked, max_content_length, block_length, request outcome class '
                        '[success plain/generator/raw out_string lazy or sized, each fault class, validation error, unknown '
-                       'method, malformed, serialisation failure, ?wsdl ok/404/500], wsgi_return / wsgi_exception listeners that replace '
+                       'method, malformed, serialisation failure, ?wsdl ok/404/500], synchronous auxiliary method (ok / Fault / non-Fault / '
+                       'unserialisable response; process_exceptions on/off), user-set response headers (str / latin-1 / list / '
+                       'tuple / several), wsgi_return / wsgi_exception listeners that replace '
                        'ctx.out_string by a stream of another size / chunking / sized-ness, CONTENT_LENGTH text, input-stream plan '
                        '[file-like, all-at-once, trickle, premature EOF, random short reads], abort point). Enumerated: every '
                        'outcome x protocol x chunked x abort 0..n; the CONTENT_LENGTH x real-length x block x max boundary grid; '
